@@ -2,9 +2,9 @@ package core
 
 import (
 	"fmt"
-	"os"
 	"go/token"
 	"go/types"
+	"os"
 	"sort"
 
 	"golang.org/x/tools/go/ssa"
@@ -630,7 +630,6 @@ func (s *Sentinels) applyCellKill(st cellState, bf BoolFact, cellOf func(ssa.Val
 // production packages, func values).
 func CalleesOf(s *Sentinels, cc *ssa.CallCommon) []*ssa.Function { return s.callees(cc) }
 
-
 // WithinOnly reports whether fn executes only inside the dynamic extent of a function satisfying pred: fn satisfies
 // it, or fn is a closure that is only called / deferred / run where it is made and its parent does, or fn is a plain
 // function that is never used as a value and every one of its static call sites does (depth-limited). It is how rules say
@@ -719,7 +718,6 @@ func (p *Prog) addrTakenFn(fn *ssa.Function) bool {
 	return taken
 }
 
-
 // DerivesAnyIP is DerivesAny that follows a parameter to the arguments of all static call sites of its function
 // (some root at some site satisfies pred; three levels) - a value keeps its meaning when the code using it moves into a helper.
 func (p *Prog) DerivesAnyIP(v ssa.Value, pred ValPred) bool {
@@ -754,7 +752,6 @@ func (p *Prog) DerivesAnyIP(v ssa.Value, pred ValPred) bool {
 	}
 	return walk(v, 0)
 }
-
 
 // EdgeFacts returns the boolean facts that hold when control flows from b to su.
 func EdgeFacts(b, su *ssa.BasicBlock) []BoolFact { return edgeFacts(b, su) }
